@@ -55,6 +55,7 @@ type c04Result struct {
 	digest     map[sim.ID]string // digest of every party's session-A output (compared with the unaltered run)
 	joint      string            // the joint value of session A that is meant to be random (sid / public key / signature nonce)
 	log        []wireMsg
+	sendOrder  []wireMsg
 }
 
 // c04Scenario is one protocol exercised by the wire adversary.
